@@ -43,5 +43,8 @@ func mustFunc(c *an.Ctx, q string) *ssaFn {
 			fmt.Sprintf("function %s not found (renamed or removed): the rule cannot be evaluated", q))
 		return nil
 	}
+	// a function a property names is a unit with rules of its own: queries rooted in its callers treat a call to
+	// it as one step; only helpers the property does not know (e.g. ones a refactoring introduced) are entered
+	an.AddOpaqueUnit(fn)
 	return fn
 }
